@@ -1,14 +1,33 @@
 import PsyVerif.Model.Atomic
 import PsyVerif.Lemmas.AtomicTiling
+import PsyVerif.Gen.AtomicSkel
 
 /-! C26 — a rejected transformation leaves the code unchanged.
 
-Generic part: soundness of the protocol "validate first, and every later check (of this or of a nested
-transformation) is implied by it" for ALL transformations written in the `Prog` language, by induction
-over the program.  Instances: `OMPLoopTrans` (pinned: counterexample; fixed: theorem),
-`ArrayReductionBaseTrans` (pinned: counterexample; fixed: theorem), `ArrayAssignment2LoopsTrans` with
-`verbose` (counterexample = known finding, partial theorem), `LoopTiling2DTrans` (theorem, in the second
-half of this file). -/
+1. Generic protocol (`Model/Atomic.lean`: `Prog` = done / prim / check / call / tryCall, `run`, `Atomic`, `NoRefuse`):
+   `C26_validate_first` — "validate first, and every later check (own or of a nested transformation) is implied by it"
+   is sound for ALL transformations of that shape, by induction over the program; composition rules
+   (`C26_atomic_check`, `_tail_call`, `_try_restore`) and the converse `C26_mutation_before_refusal`.
+2. Hand-written models of the composite / irregular transformations, each with a correspondence check against the
+   real `apply()` (harness/props/c26_models.py):
+     LoopTiling2DTrans (+ ChunkLoopTrans, LoopSwapTrans; concrete validate/apply on loop nests)   theorem
+     OMPLoopTrans family (reprod symbols)            pinned counterexample · fixed theorem (commit 50629ec)
+     OMPTaskTrans (collapse; inlining)                2 pinned counterexamples · fixed theorem (ef452d1, 30dd17e)
+     ArrayReductionBaseTrans (tmp_var; mask)          2 pinned counterexamples · fixed theorems (bb4519c, 30a1a75)
+     AlgTrans / LFRicAlgTrans (one nested per invoke) pinned counterexample · fixed theorem (0f1a318)
+     GOceanExtractTrans / LFRicExtractTrans           pinned counterexample · fixed theorem
+                                                      (fixes/C26-extract-validate-before-side-effects.patch)
+     ArrayAssignment2LoopsTrans (verbose)             counterexample = known finding · partial theorem
+     KernelModuleInlineTrans                          counterexample = known finding · partial theorem
+     Sign2CodeTrans, CreateNemoPSyTrans               theorems (nested validate holds by construction)
+3. Protocol skeletons (`Model/AtomicSkel.lean`, `Lemmas/AtomicSkel.lean`, `Gen/AtomicSkel.lean` regenerated from the
+   live source by harness/props/c26_skel.py): `C26_safe_skeleton_atomic` — if in the source order of `apply()` no check
+   and no nested apply is reachable after a mutation, the transformation is atomic under EVERY interpretation of its
+   checks and mutations; `C26_all_expected_safe` re-checks this shape for the 61 transformations recorded as safe
+   (HoistTrans, LoopFuseTrans, InlineTrans, the region transformations, Dynamo0p3ColourTrans,
+   Dynamo0p3RedundantComputationTrans, the intrinsic-to-code transformations, …).  The extraction is cross-checked at
+   run time by a monitor of tree / symbol-table mutations (harness/props/c26_monitor.py).
+Everything else is covered by the generic differential sweep only (exploration, listed in the evidence). -/
 namespace C26
 
 variable {S : Type}
@@ -311,6 +330,97 @@ example : run (algTransFixed (fun _ => true)
     [⟨fun _ => true, fun s : AlgState => { s with first := true }⟩, ⟨fun _ => true, fun s => { s with second := true }⟩])
     ⟨false, false⟩ = (⟨true, true⟩, .accepted) := by decide
 
+/-- `CreateNemoPSyTrans` (one nested CreateNemoInvokeScheduleTrans per Routine found by `walk(Routine)`, whose
+    validate only asks for a Routine): every nested validate holds by construction. -/
+theorem C26_CreateNemoPSyTrans (v : S → Bool) (mutations : List (S → S)) :
+    Atomic (algTransPinned v (mutations.map fun f => ⟨fun _ => true, f⟩)) := by
+  apply C26_atomic_validate_first
+  apply noRefuse_seqCalls
+  · intro s _
+    simp [List.all_map]
+  · intro t ht u hu s
+    simp only [List.mem_map] at ht hu
+    obtain ⟨_, _, rfl⟩ := hu
+    rfl
+
+/-! ### GOceanExtractTrans / LFRicExtractTrans -/
+
+def C26_ExtractTrans_pinned_statement : Prop :=
+  ∀ (createDriver : Bool) (nodesOk v : ExtractState → Bool), Atomic (extractPinned createDriver nodesOk v)
+
+/-- Pinned code: a refusal (e.g. "distributed memory is not supported") has already reserved a region name — the next
+    accepted region is called `…:r1` — and, with `create_driver`, written a driver file. -/
+theorem C26_ExtractTrans_pinned_counterexample : ¬ C26_ExtractTrans_pinned_statement := by
+  intro h
+  have := h true (fun _ => true) (fun _ => false) ⟨0, false, false⟩ (by decide)
+  revert this
+  decide
+
+/-- Fixed code: atomic for every validate that does not depend on the reserved name / the driver file. -/
+theorem C26_ExtractTrans (createDriver : Bool) (nodesOk v : ExtractState → Bool)
+    (hv : ∀ s, v (extractReserve createDriver s) = v s) : Atomic (extractFixed createDriver nodesOk v) := by
+  apply C26_atomic_check
+  apply C26_atomic_validate_first
+  simp only [NoRefuse, psyDataApply, validateThen]
+  refine ⟨?_, trivial⟩
+  rintro s ⟨s0, h0, rfl⟩
+  refine ⟨?_, trivial⟩
+  rintro x rfl
+  rw [hv]
+  exact h0
+
+example : run (extractFixed true (fun _ => true) (fun _ => false)) ⟨0, false, false⟩ = (⟨0, false, false⟩, .refused) := by
+  decide
+example : run (extractFixed true (fun _ => true) (fun _ => true)) ⟨0, false, false⟩ = (⟨1, true, true⟩, .accepted) := by
+  decide
+example : run (extractPinned true (fun _ => true) (fun _ => false)) ⟨0, false, false⟩ = (⟨1, true, false⟩, .refused) := by
+  decide
+
+/-! ### KernelModuleInlineTrans -/
+
+def C26_KernelModuleInline_statement : Prop :=
+  ∀ (exists_ same : Bool) (v : KmiState → Bool), Atomic (kernelModuleInline exists_ same v)
+
+/-- A second call of a kernel whose already inlined copy was transformed meanwhile: the kernel schedule is prepared
+    (imports moved into the routine), then the routines are found to differ (known finding). -/
+theorem C26_KernelModuleInline_counterexample : ¬ C26_KernelModuleInline_statement := by
+  intro h
+  have := h true false (fun _ => true) ⟨false, false⟩ (by decide)
+  revert this
+  decide
+
+/-- Atomic whenever no routine of that name is in the container yet, or the existing one is the same. -/
+theorem C26_KernelModuleInline_partial (exists_ same : Bool) (v : KmiState → Bool)
+    (h : exists_ = false ∨ same = true) : Atomic (kernelModuleInline exists_ same v) := by
+  apply C26_atomic_validate_first
+  simp only [NoRefuse]
+  refine ⟨?_, trivial⟩
+  rintro s _
+  rcases h with h | h <;> subst h
+  · simp [NoRefuse]
+  · cases exists_ <;> simp [NoRefuse]
+
+example : run (kernelModuleInline true false (fun _ => true)) ⟨false, false⟩ = (⟨true, false⟩, .refused) := by decide
+example : run (kernelModuleInline false false (fun _ => true)) ⟨false, false⟩ = (⟨true, true⟩, .accepted) := by decide
+
+/-! ### Sign2CodeTrans -/
+
+/-- The validate of the nested Abs2CodeTrans holds by construction of the node it is given: atomic for every
+    outer validate. -/
+theorem C26_Sign2CodeTrans (v : SignState → Bool) : Atomic (sign2code v) := by
+  apply C26_atomic_validate_first
+  simp only [NoRefuse, validateThen]
+  refine ⟨?_, trivial⟩
+  rintro s ⟨s0, _, rfl⟩
+  refine ⟨?_, trivial⟩
+  rintro x rfl
+  simp [absValidate]
+
+example : run (sign2code (fun _ => true)) ⟨false, false, false, false, false⟩
+    = (⟨true, true, true, true, true⟩, .accepted) := by decide
+example : run (sign2code (fun s => s.finished)) ⟨false, false, false, false, false⟩
+    = (⟨false, false, false, false, false⟩, .refused) := by decide
+
 /-! ### ArrayReductionBaseTrans -/
 
 def C26_ArrayReduction_pinned_statement : Prop :=
@@ -483,3 +593,41 @@ theorem C26_LoopTiling2D_needs_wf :
   decide
 
 end C26.Tiling
+
+/-! ### Protocol skeletons extracted from the source of every `apply()` (translator `harness/props/c26_skel.py`) -/
+namespace C26.Skel
+
+/-- **A safe skeleton is atomic**: if, in the source order of `apply()` (helpers inlined, both branches of every `if`,
+    any number of loop iterations), no check and no nested `apply()` is reachable after a mutation, then the
+    transformation is atomic — whatever the checks test, whatever the mutations do, whichever branches are taken —
+    provided the transformations it calls are atomic. -/
+theorem C26_safe_skeleton_atomic {S : Type} (sk : Skel) (h : safe sk = true) (e : Env S)
+    (hn : ∀ i, Atomic (e.nest i)) : Atomic (interp e sk) :=
+  safe_atomic sk h e hn
+
+/-- every transformation recorded as having a safe skeleton still has one in the current source tree
+    (the list is regenerated from the live code on every run) -/
+theorem C26_all_expected_safe : ∀ sk ∈ Gen.expectedSafe, safe sk = true := by decide
+
+theorem C26_expected_safe_atomic {S : Type} (sk : Skel) (hm : sk ∈ Gen.expectedSafe) (e : Env S)
+    (hn : ∀ i, Atomic (e.nest i)) : Atomic (interp e sk) :=
+  safe_atomic sk (C26_all_expected_safe sk hm) e hn
+
+/-- the analysis is not vacuous: it rejects "mutate, then check" and "nested apply after a mutation" … -/
+example : safe (.atom (.mutate 0) (.atom (.check 1) .nil)) = false := by decide
+example : safe (.atom (.check 0) (.atom (.mutate 1) (.atom (.nested 2) .nil))) = false := by decide
+example : safe (.atom (.check 0) (.loop 1 (.atom (.check 2) (.atom (.mutate 3) .nil)) .nil)) = false := by decide
+/-- … rejects the pinned shapes of the transformations that needed a fix or a hand-written model … -/
+example : safe Gen.sk_LoopTiling2DTrans = false ∧ safe Gen.sk_AlgTrans = false ∧ safe Gen.sk_Sum2LoopTrans = false := by
+  decide
+/-- … and accepts e.g. HoistTrans, LoopFuseTrans, InlineTrans, the region and intrinsic transformations. -/
+example : safe Gen.sk_HoistTrans = true ∧ safe Gen.sk_LoopFuseTrans = true ∧ safe Gen.sk_InlineTrans = true
+    ∧ safe Gen.sk_ACCKernelsTrans = true ∧ safe Gen.sk_Matmul2CodeTrans = true ∧ safe Gen.sk_Dynamo0p3ColourTrans = true := by
+  decide
+/-- a concrete interpretation: validate refuses, nothing is touched; validate accepts, the mutation happens -/
+example : run (interp (S := Nat) ⟨fun _ s => s != 0, fun _ s => s + 1, fun _ => .done, fun _ _ => true, fun _ _ => 1⟩
+    Gen.sk_HoistTrans) 0 = (0, .refused) := by decide
+example : run (interp (S := Nat) ⟨fun _ s => s != 0, fun _ s => s + 1, fun _ => .done, fun _ _ => true, fun _ _ => 1⟩
+    Gen.sk_HoistTrans) 5 = (6, .accepted) := by decide
+
+end C26.Skel
